@@ -200,5 +200,10 @@ def emit_coq(rows, path):
     with open(path, "w") as f:
         f.write("(* generated on this run: actual arguments of every bind(C) call in the generated Fortran specifics *)\n")
         f.write("From Coq Require Import List String.\nFrom Shroud Require Import Model.FCall.\nImport ListNotations.\nOpen Scope string_scope.\n")
-        f.write("Definition fcalls : list fcall :=\n  [" + ";\n   ".join(items) + "].\n")
+        # (one list literal of several megabytes overflows coqc's stack: the table is written in pieces and concatenated)
+        CH = 2000
+        pieces = [items[i:i + CH] for i in range(0, len(items), CH)] or [[]]
+        for k, piece in enumerate(pieces):
+            f.write("Definition fcalls_%d : list fcall :=\n  [" % k + ";\n   ".join(piece) + "].\n")
+        f.write("Definition fcalls : list fcall := " + " ++ ".join("fcalls_%d" % k for k in range(len(pieces))) + ".\n")
     return len(items)
